@@ -11,31 +11,48 @@ def run(ctx):
 
 def _run(ctx):
     binary = lq.build(ctx)
-    cfg = "LedgerQuery_C39t.cfg" if ctx.thorough else "LedgerQuery_C39.cfg"
-    paths, nsteps, names, mc = [], 0, {}, None
+    cfgs = ["LedgerQuery_C39.cfg", "LedgerQuery_C39t.cfg"] if ctx.thorough else ["LedgerQuery_C39.cfg"]
+    allpaths, nsteps, names, classes = [], 0, {}, set()
+    files = None
     if binary:
         bits, bits_mod = lq.real_bits(ctx, binary)
         files = {"LQBits.tla": bits_mod} if bits_mod else None
         # design intent: with the body check in place no invalid block is ever committed (spec-level sanity of the oracle)
-        ri = ctx.tlc("LedgerQuery_MC", cfg="LedgerQuery_C39i.cfg", files=files, timeout=900, tags=())
+        ri = ctx.tlc("LedgerQuery_MC", cfg="LedgerQuery_C39it.cfg" if ctx.thorough else "LedgerQuery_C39i.cfg", files=files, timeout=1500, tags=())
         if ri.status != "ok":
             ctx.infra("TLC did not verify the design-intent configuration: %s %s" % (ri.status, ri.violated))
+    for cfg in (cfgs if binary else []):
         mc = lq.model_check(ctx, cfg, ["Submit:ok", "Submit:refused", "Submit:ignored", "Restart"], files=files)
+        if not mc:
+            continue
+        nsteps, names, classes, allpaths = one_cfg(ctx, binary, mc, cfg, nsteps, names, classes, allpaths)
+    ctx.extra["mutation_classes"] = len(classes)
+    ctx.samples.append({"mutation_classes": sorted(classes)[:40]})
+    finish(ctx, allpaths, nsteps, names, cfgs)
+
+
+def one_cfg(ctx, binary, mc, cfg, nsteps, names, classes, allpaths):
+    paths = []
     if mc:
-        r, edges, inits, shapes, names = mc
+        r, edges, inits, shapes, nm = mc
+        for k, v in nm.items():
+            names[k] = names.get(k, 0) + v
         paths, ncov = ctx.cover(edges, inits, max_len=40)
         if ncov != len(edges):
             ctx.infra("cover reaches %d of %d edges" % (ncov, len(edges)))
         ctx.log("cover: %d paths, %d steps" % (len(paths), sum(len(p["steps"]) for p in paths)))
-        obs = lq.replay(ctx, binary, shapes, paths, "c39")
+        obs = lq.replay(ctx, binary, shapes, paths, "c39-" + cfg[12:-4])
         if obs is not None:
-            nsteps = lq.check_steps(ctx, paths, obs, {"result", "unchanged", "views", "history"})
-            ctx.log("replayed %d steps on the real ledger" % nsteps)
-        classes = sorted({lq.mut_class(e["act"]["mut"]) for e in edges if e["act"]["name"] == "Submit"})
-        ctx.extra["mutation_classes"] = len(classes)
-        if paths:
+            n = lq.check_steps(ctx, paths, obs, {"result", "unchanged", "views", "history"})
+            nsteps += n
+            ctx.log("replayed %d steps on the real ledger" % n)
+        classes |= {lq.mut_class(e["act"]["mut"]) for e in edges if e["act"]["name"] == "Submit"}
+        if paths and not allpaths:
             ctx.samples.append({"replayed_path": [s["act"] for s in paths[0]["steps"][:3]]})
-        ctx.samples.append({"mutation_classes": classes[:40]})
+    return nsteps, names, classes, allpaths + paths
+
+
+def finish(ctx, paths, nsteps, names, cfg):
     cov = {"states": ctx.stats["states"], "transitions": ctx.stats["transitions"],
            "traces_validated_against_impl": len(paths), "replayed_steps": nsteps, "edges_by_action": names,
            "cfg": cfg, "exhaustive": True}
